@@ -5,7 +5,7 @@ CONSTANTS
   BadInputs = {"malformed", "control", "import_malformed"}
   DupMode = "code"
   LimitMode = "code"
-  RunnableMode = "code"
+  RunnableMode = "ignore_elig"
   None = None
   IntentSet = {"a1", "n1", "p1", "b1"}
   BadSet = {"malformed", "control", "import_malformed"}
@@ -18,7 +18,7 @@ CONSTANTS
   Mode = "graph"
   MaxRuns = 2
   MaxCalls = 0
-  Export = TRUE
+  Export = FALSE
 VIEW MC_View
 INVARIANTS TypeOK TicksAdvanceOnlyByCycles HistoryAppendOnly AtMostOnce LedgerIsLog DuplicateChangesNothing AcceptedIsNew RunCommitsPendingSet RunIdsFresh StartCompletionConsistent StatusFresh RefusedChangesNothing FailedRunCommitsNothing DormantNeverCommitted ReadChangesNothing ResponseCarriesStatus
 PROPERTIES Laws
